@@ -523,9 +523,14 @@ func (ps *pipeScenario) run(c *vk.Case, o runOpts) *pipeRun {
 						maxPos = st.Position
 					}
 				}
-				if h := chain.Head().Num; h <= maxPos {
-					chain.Grow(int(maxPos + 1 - h))
-					run.Trace = append(run.Trace, fmt.Sprintf("grow(%d)", maxPos+1-h))
+				// …and at or above the configured start, or the pair can legitimately not begin
+				want := maxPos + 1
+				if st := d.Sources[0].Start; st > want {
+					want = st
+				}
+				if h := chain.Head().Num; h < want {
+					chain.Grow(int(want - h))
+					run.Trace = append(run.Trace, fmt.Sprintf("grow(%d)", want-h))
 				}
 			}
 			sr := doStep()
